@@ -47,14 +47,18 @@ def clause_tables(rep):
 def run(rep):
     return generic.run_generic(
         rep, tc.NAV_FUNCS + [(tc.GT, 'new group'), ('sqlparse.engine.grouping.group_where', 'call sites'),
+                             ('sqlparse.engine.grouping.group_where', 'call sites, inside a bracket or block group'),
                              ('sqlparse.sql.IdentifierList.get_identifiers', 'body'),
                              ('sqlparse.sql.Comparison.left', 'total'), ('sqlparse.sql.Comparison.right', 'total')] + tc.JOINER_FUNCS,
         structural=[clause_tables, tc.identity_side_conditions],
         assumptions=['proved: the first-match search (token_next_by -> _token_matching) that finds the clause-closing keyword, '
-                     'group_tokens creating exactly the requested span, group_where (indices, every WHERE becomes a node), the '
+                     'group_tokens creating exactly the requested span, group_where (indices, every WHERE becomes a node, and '
+                     'the EXTENT of the clause: the grouped range starts at a WHERE keyword, contains no closing keyword behind '
+                     'it and is directly followed by a closing keyword of Where.M_CLOSE or by the end of the list - resp. by the '
+                     'closing delimiter when the clause stands inside a parenthesis / bracket / CASE / IF / FOR / BEGIN group), the '
                      'joiner _group with its passes (indices, recursion, no delimiter absorbed), get_identifiers (yields exactly '
                      'the children that are neither whitespace nor commas, in order), Comparison.left/right (first / last '
-                     'child); which index group_where computes as the end of the clause, which neighbours the joiner passes '
+                     'child); which neighbours the joiner passes '
                      'accept, get_parameters beyond totality, get_cases and the composition of the passes on grammar scripts '
                      'are covered by data / shape obligations and the bounded stand-in'],
         trusted=['CPython re engine'])
